@@ -48,7 +48,7 @@ def parseStr (c : Cur) : Option (Str × Cur) := do
   let (es, c) ← c.tuples 4
   let es := es.filterMap (fun t => match t with | [i, j, w, f] => some (i, j, w, f != 0) | _ => none)
   match Str.build m n es with
-  | .ok s => some (s, c)
+  | .ok s => if s.wfB then some (s, c) else none
   | _ => none
 
 def decodeEvent : List Nat → Option (Act × Outcome)
